@@ -313,6 +313,7 @@ class C02(World):
                 op["write"] = rng.random() < 0.5
             elif kind == "reassign":
                 op["same_object"] = rng.random() < 0.3
+                op["prehashed"] = rng.random() < 0.5
                 op["v"] = rng.randrange(1, 200)
             ops.append(op)
         return {"config": config, "ops": ops}
@@ -562,9 +563,20 @@ class C02(World):
             new = np.array(r.mir, copy=True)
             new.setflags(write=True)
             new.reshape(-1)[0] = _val(new, op.get("v", 3))
-            setattr(cont["obj"], attr, new.copy())
+            if op.get("prehashed"):
+                # an already tracked, already hashed array object (taken from another mesh, or held and restored)
+                from trimesh.caching import tracked_array
+
+                t = tracked_array(new.copy())
+                t.__hash__()
+                setattr(cont["obj"], attr, t)
+            else:
+                setattr(cont["obj"], attr, new.copy())
             new_arr = getattr(cont["obj"], attr)
             hs.append(H(new_arr, new, isinstance(new_arr, TA), None, "reassign"))
+            if op.get("prehashed") or cont["obj"] is not None:
+                # known state: the array object has been hashed (by us, or by the setter's cache bookkeeping)
+                self._hash_read(len(hs) - 1, hs, st, ctx, "dunder")
             st["root"] = len(hs) - 1
             return "new"
         raise Inapplicable()
